@@ -10,7 +10,7 @@ Open Scope nat_scope.
 Theorem canonical_wf : forall nested ts ds, canonical_program nested ts ds -> wf_descs ts ds.
 Proof.
   intros nested ts ds H. unfold canonical_program in H. constructor.
-  - pose proof (items_shape nested 0 ts ds H [] [] eq_refl I) as HS.
+  - pose proof (items_shape nested 0 ts ds H [] [] eq_refl) as HS.
     cbn [app] in HS. rewrite app_nil_r in HS. exact HS.
   - destruct (items_order nested 0 ts ds H) as [_ HS].
     intros i j di dj Hij Hi Hj. exact (StronglySorted_nth ord ds HS i j di dj Hij Hi Hj).
